@@ -506,6 +506,10 @@ def explore(cfg, max_runs=400, max_subset=None, max_bg=None, rng=None):
             t["script"] = [c for _, c in trail]
             t["anomalies"] = run["anomalies"]
             out.append(t)
+        if any(e["e"] in ("hang", "stall") for e in run["events"]):
+            # a run that hung or stalled cost its timeouts: one is enough to judge this configuration
+            complete = False
+            break
     return {"traces": out, "runs": runs, "complete": complete, "nondet": nondet}
 
 
@@ -514,6 +518,12 @@ def _work(args):
     rng = random.Random(seed)
     res = []
     for cfg in cfgs:
+        if opts.get("deadline") and time.time() > opts["deadline"]:
+            # the time budget of the exploration is used up (a tree on which runs keep hanging): what was explored stands
+            r = {"traces": [], "runs": 0, "complete": False, "nondet": 0, "skipped": True}
+            r["cfg"] = cfg
+            res.append(r)
+            continue
         try:
             r = explore(cfg, opts.get("max_runs", 400), opts.get("max_subset"), opts.get("max_bg"), rng)
         except BaseException as e:  # noqa: BLE001
